@@ -1,3 +1,132 @@
-//! placeholder, filled in below
+//! C05 — one Gibbs step asks the conditional for every coordinate exactly once, each time passing
+//! the state in which earlier answers are already written, writes the answer to that coordinate
+//! only, and changes nothing else.  Real code: `<GibbsMarkovChain<S,D> as MarkovChain<S>>::step`.
+//! "Any Conditional": every answer is a solver variable, the conditional records what it is asked.
+
+use crate::h_c01::BitEq;
 use crate::Src;
-pub fn by_name(_name: &str) -> Option<fn(&mut Src)> { None }
+use crate::{chk, cov};
+use mini_mcmc::core::MarkovChain;
+use mini_mcmc::distributions::Conditional;
+use mini_mcmc::gibbs::GibbsMarkovChain;
+use rand::rngs::SmallRng;
+use rand::SeedableRng;
+
+pub const MAXD: usize = 6;
+
+#[derive(Clone)]
+pub struct RecCond<S: Copy> {
+    pub answers: [S; MAXD],
+    pub calls: usize,
+    pub asked: [u32; MAXD],
+    pub bad_index: bool,
+    pub given_ok: bool,
+    pub given_len_ok: bool,
+    pub model: [S; MAXD],
+    pub d: usize,
+}
+
+impl<S: BitEq> Conditional<S> for RecCond<S> {
+    fn sample(&mut self, index: usize, given: &[S]) -> S {
+        if given.len() != self.d {
+            self.given_len_ok = false;
+        } else {
+            let mut i = 0;
+            while i < self.d {
+                if !S::biteq(given[i], self.model[i]) {
+                    self.given_ok = false;
+                }
+                i += 1;
+            }
+        }
+        let a = self.answers[if self.calls < MAXD { self.calls } else { MAXD - 1 }];
+        if index < self.d {
+            self.asked[index] += 1;
+            self.model[index] = a;
+        } else {
+            self.bad_index = true;
+        }
+        self.calls += 1;
+        a
+    }
+}
+
+macro_rules! c05_body {
+    ($name:ident, $S:ty, $anys:ident, $zero:expr, $dmax:expr) => {
+        pub fn $name(src: &mut Src) {
+            let d = (src.u8() as usize) % ($dmax + 1);
+            src.assume(d >= 1);
+            let mut init: [$S; MAXD] = [$zero; MAXD];
+            let mut answers: [$S; MAXD] = [$zero; MAXD];
+            let mut i = 0;
+            while i < $dmax {
+                init[i] = src.$anys();
+                answers[i] = src.$anys();
+                i += 1;
+            }
+            let mut state: Vec<$S> = Vec::with_capacity(MAXD);
+            let mut i = 0;
+            while i < d {
+                state.push(init[i]);
+                i += 1;
+            }
+            let cond = RecCond::<$S> {
+                answers,
+                calls: 0,
+                asked: [0; MAXD],
+                bad_index: false,
+                given_ok: true,
+                given_len_ok: true,
+                model: init,
+                d,
+            };
+            let mut chain = GibbsMarkovChain { target: cond, current_state: state, seed: 0, rng: SmallRng::from_seed([7u8; 32]) };
+            let ret_ok = {
+                let r = chain.step();
+                r.len() == d
+            };
+            let c = &chain.target;
+            chk!(src, ret_ok && chain.current_state.len() == d, "the state keeps its length");
+            chk!(src, c.calls == d, "the conditional is asked exactly once per coordinate");
+            chk!(src, !c.bad_index, "only coordinates of the state are asked for");
+            let mut each_once = true;
+            let mut i = 0;
+            while i < d {
+                if c.asked[i] != 1 {
+                    each_once = false;
+                }
+                i += 1;
+            }
+            chk!(src, each_once, "every coordinate is refreshed exactly once");
+            chk!(src, c.given_len_ok && c.given_ok, "each request passes the current state with all earlier answers already written");
+            let mut fin_ok = chain.current_state.len() == d;
+            let mut i = 0;
+            while i < d && fin_ok {
+                if !<$S as BitEq>::biteq(chain.current_state[i], c.model[i]) {
+                    fin_ok = false;
+                }
+                i += 1;
+            }
+            chk!(src, fin_ok, "the final state holds each answer at its coordinate and nothing else changed");
+            chk!(src, chain.current_state().len() == d, "current_state reports the new state");
+            cov!(src, d == $dmax, "largest dimension");
+            cov!(src, d == 1, "dimension 1");
+            cov!(src, true, "end reached");
+        }
+    };
+}
+
+c05_body!(c05_u8_d4, u8, u8, 0u8, 4);
+c05_body!(c05_f64_d3, f64, f64, 0.0f64, 3);
+c05_body!(c05_u8_d6, u8, u8, 0u8, 6);
+c05_body!(c05_i32_d4, i32, i32, 0i32, 4);
+
+pub fn by_name(name: &str) -> Option<fn(&mut Src)> {
+    Some(match name {
+        "c05_u8_d4" => c05_u8_d4,
+        "c05_f64_d3" => c05_f64_d3,
+        "c05_u8_d6" => c05_u8_d6,
+        "c05_i32_d4" => c05_i32_d4,
+        _ => return None,
+    })
+}
